@@ -1,5 +1,7 @@
 (* C16 — proofs about the algebraic VRF model (Vrf.v). *)
 From Coq Require Import ZArith Znumtheory Bool Lia.
+From V.Base Require Hex.
+From V.C16 Require Model Proofs.
 From V.C16 Require Import Vrf.
 Local Open Scope Z_scope.
 
@@ -254,6 +256,31 @@ Proof.
   intros Hro H1 H2. rewrite (accepted_gamma8 x m p1 Hro H1), (accepted_gamma8 x m p2 Hro H2). reflexivity.
 Qed.
 
+Lemma accepted_gamma8_or_lucky x m p :
+  verify W (pubkey W x) p m = true ->
+  output_cof W p = smul (8 * x) (hash_to_curve W (pubkey W x) m) \/ lucky_hit W x m p.
+Proof.
+  intro Hv. destruct p as [[Gm c] s].
+  pose proof (verify_answerable _ _ _ _ _ Hv) as Ha. unfold query in Ha. destruct Ha as [Hc' Ha].
+  unfold output_cof, lucky_hit, query.
+  destruct (geqb W (smul 8 Gm) (smul (8 * x) (hash_to_curve W (pubkey W x) m))) eqn:Eq.
+  - left. apply geqb_spec in Eq. exact Eq.
+  - right. assert (Hne : smul 8 Gm <> smul (8 * x) (hash_to_curve W (pubkey W x) m)).
+    { intro E'. apply geqb_spec in E'. congruence. }
+    split; [exact Hne|]. split; [exact Hc'|]. split; [exact Ha|].
+    intros c' Ha'. eapply one_answerable; eauto. apply ell_hash.
+Qed.
+
+Lemma output_cof_unique_or_lucky x m p1 p2 :
+  verify W (pubkey W x) p1 m = true -> verify W (pubkey W x) p2 m = true ->
+  output_cof W p1 = output_cof W p2 \/ lucky_hit W x m p1 \/ lucky_hit W x m p2.
+Proof.
+  intros H1 H2.
+  destruct (accepted_gamma8_or_lucky x m p1 H1) as [E1|L1]; [|tauto].
+  destruct (accepted_gamma8_or_lucky x m p2 H2) as [E2|L2]; [|tauto].
+  left. congruence.
+Qed.
+
 (* ---- mutations: an accepted mutant evaluates the challenge hash at a fresh point ---- *)
 Lemma mutate_gamma_query Y Gm Gm' c s m :
   Gm' <> Gm -> query W Y (Gm', c, s) m <> query W Y (Gm, c, s) m.
@@ -314,4 +341,89 @@ Proof.
   apply Z.divide_pos_le in Hdiv; lia.
 Qed.
 
+Lemma bitflip_not_multiple i s s' :
+  0 <= i -> 2 < ell -> (s' - s = 2 ^ i \/ s - s' = 2 ^ i) -> ~ (ell | s' - s).
+Proof.
+  intros Hi Hl [E|E] Hd.
+  - rewrite E in Hd. exact (pow2_not_multiple i Hi Hl Hd).
+  - apply (pow2_not_multiple i Hi Hl). rewrite <- E.
+    replace (s - s') with (- (s' - s)) by lia. apply Z.divide_opp_r. exact Hd.
+Qed.
+
+(* an accepted mutant that keeps the challenge bytes collides with the honest query *)
+Lemma mutant_same_c Y Y' Gm Gm' c s s' m m' :
+  verify W Y (Gm, c, s) m = true -> verify W Y' (Gm', c, s') m' = true ->
+  Hc4 W (query W Y' (Gm', c, s') m') = Hc4 W (query W Y (Gm, c, s) m).
+Proof.
+  unfold verify. intros H1 H2. apply Z.eqb_eq in H1, H2. congruence.
+Qed.
+
+Lemma mutate_proof_query Y Gm Gm' c s s' m :
+  Gm' <> Gm \/ (Gm' = Gm /\ ~ (ell | s' - s)) ->
+  query W Y (Gm', c, s') m <> query W Y (Gm, c, s) m.
+Proof.
+  intros [Hg|[-> Hs]].
+  - unfold query. intro E. apply Hg. congruence.
+  - apply mutate_s_query. exact Hs.
+Qed.
+
 End P.
+
+(* ---- statements used by Props.v ---- *)
+Lemma transport_vrf (W : World) (dec : list N -> option (proof W)) Y m (pi : list N) :
+  V.Base.Hex.bytes_ok pi -> length pi = V.C16.Model.prove_size ->
+  V.C16.Model.verify_via (verify_bytes W dec Y m) (V.C16.Model.transport pi) =
+  V.C16.Model.verify_via (verify_bytes W dec Y m) pi.
+Proof. exact (V.C16.Proofs.verify_transport (verify_bytes W dec Y m) pi). Qed.
+
+Lemma deterministic (W : World) (x t : Z) (m : Msg W) p1 p2 :
+  p1 = prove W x t m -> p2 = prove W x t m -> p1 = p2.
+Proof. intros; congruence. Qed.
+
+Lemma shifted_outputs (W : World) (x t : Z) (m : Msg W) (T : G W) (k : Z) :
+  (T <> zero W -> output_enc W (shifted W x m T k) <> output_enc W (prove W x t m)) /\
+  (smul W 8 T = zero W -> output_cof W (shifted W x m T k) = output_cof W (prove W x t m)).
+Proof. split; [apply shifted_output_enc | apply shifted_output_cof]. Qed.
+
+Lemma bit_mutation_proof (W : World) (x t : Z) (m : Msg W) Gm' s' :
+  let Y := pubkey W x in
+  let '(Gm, c, s) := prove W x t m in
+  Gm' <> Gm \/ (Gm' = Gm /\ ~ (ell W | s' - s)) ->
+  verify W Y (Gm', c, s') m = true ->
+  query W Y (Gm', c, s') m <> query W Y (Gm, c, s) m /\
+  Hc4 W (query W Y (Gm', c, s') m) = Hc4 W (query W Y (Gm, c, s) m).
+Proof.
+  cbv zeta. pose proof (complete W x t m) as Hv.
+  destruct (prove W x t m) as [[Gm c] s]. intros Hm Hv'. split.
+  - apply mutate_proof_query. exact Hm.
+  - eapply mutant_same_c; eassumption.
+Qed.
+
+Lemma bit_mutation_challenge (W : World) (x t : Z) (m : Msg W) c' :
+  let Y := pubkey W x in
+  let '(Gm, c, s) := prove W x t m in
+  ~ (ell W | x) -> 0 <= c' < ell W -> c' <> c ->
+  verify W Y (Gm, c', s) m = true ->
+  query W Y (Gm, c', s) m <> query W Y (Gm, c, s) m /\ Hc4 W (query W Y (Gm, c', s) m) = c'.
+Proof.
+  cbv zeta. pose proof (complete W x t m) as Hv.
+  destruct (prove W x t m) as [[Gm c] s] eqn:Ep. intros Hx Hc' Hne Hv'. split.
+  - apply mutate_c_query; auto.
+    unfold verify in Hv. apply Z.eqb_eq in Hv. rewrite <- Hv.
+    pose proof (cbound_ok W). destruct (query W (pubkey W x) (Gm, c, s) m) as [[[a b] u] v].
+    cbn [Hc4]. pose proof (Hc_range W a b u v). lia.
+  - unfold verify in Hv'. apply Z.eqb_eq in Hv'. exact Hv'.
+Qed.
+
+Lemma bit_mutation_input (W : World) (x t : Z) (m m' : Msg W) (Y' : G W) :
+  let Y := pubkey W x in
+  let p := prove W x t m in
+  hash_to_curve W Y' m' <> hash_to_curve W Y m ->
+  verify W Y' p m' = true ->
+  query W Y' p m' <> query W Y p m /\ Hc4 W (query W Y' p m') = Hc4 W (query W Y p m).
+Proof.
+  cbv zeta. pose proof (complete W x t m) as Hv.
+  destruct (prove W x t m) as [[Gm c] s]. intros Hh Hv'. split.
+  - apply mutate_h_query. exact Hh.
+  - eapply mutant_same_c; eassumption.
+Qed.
